@@ -741,6 +741,10 @@ class SsbGraphMinimizer:
                     in_edges = v.in_edges()
                     out_edges = v.out_edges()
                     if len(in_edges) == 0:
+                        if v["op"].referenced_from_other_routine and len(out_edges) == 1:
+                            # Nothing in this routine leads here (eg. the label is in front of the first operation),
+                            # but another routine jumps to it.
+                            continue
                         vs_to_delete.add(v)
                     elif len(in_edges) == 1:
                         assert len(out_edges) == 1
